@@ -1,0 +1,114 @@
+//go:build verif
+
+// Verification hooks for property C11 (StreamWriter): read-only views of the
+// stream writer's buffered output and spill state. Compiled only with
+// `-tags verif`; adds code and changes none.
+
+package excelize
+
+import (
+	"bytes"
+	"encoding/xml"
+	"io"
+	"os"
+)
+
+// VerifC11State is a snapshot of a StreamWriter taken without changing it
+// (in particular without the flush that bufferedWriter.Reader performs).
+type VerifC11State struct {
+	Rows         int    // sw.rows
+	SheetWritten bool   // sw.sheetWritten
+	MergeCount   int    // sw.mergeCellsCount
+	MergeCells   string // sw.mergeCells
+	TableParts   string // sw.tableParts
+	HasTmp       bool   // a temporary file is in use
+	TmpLen       int    // bytes already written to the temporary file
+	BufLen       int    // bytes in the in-memory buffer
+	Abs          []byte // temp-file content followed by the in-memory buffer
+}
+
+// VerifC11Snapshot returns the current state of the stream writer.
+func VerifC11Snapshot(sw *StreamWriter, withBytes bool) (VerifC11State, error) {
+	st := VerifC11State{
+		Rows: sw.rows, SheetWritten: sw.sheetWritten, MergeCount: sw.mergeCellsCount,
+		MergeCells: sw.mergeCells.String(), TableParts: sw.tableParts,
+		HasTmp: sw.rawData.tmp != nil, BufLen: sw.rawData.buf.Len(),
+	}
+	if sw.rawData.tmp != nil {
+		fi, err := sw.rawData.tmp.Stat()
+		if err != nil {
+			return st, err
+		}
+		st.TmpLen = int(fi.Size())
+		if withBytes {
+			b, err := os.ReadFile(sw.rawData.tmp.Name())
+			if err != nil {
+				return st, err
+			}
+			st.Abs = b
+		}
+	}
+	if withBytes {
+		st.Abs = append(st.Abs, sw.rawData.buf.Bytes()...)
+	}
+	return st, nil
+}
+
+// VerifC11Reader reads everything bufferedWriter.Reader yields (this is the
+// view AddTable uses; it moves the in-memory buffer to the temporary file
+// when one is in use).
+func VerifC11Reader(sw *StreamWriter) ([]byte, error) {
+	r, err := sw.rawData.Reader()
+	if err != nil {
+		return nil, err
+	}
+	return io.ReadAll(r)
+}
+
+// VerifC11Fields renders worksheet fields [from, to] the way the stream
+// writer's prolog/epilog does (bulkAppendFields), into a scratch buffer.
+func VerifC11Fields(sw *StreamWriter, from, to int) []byte {
+	var b bytes.Buffer
+	bulkAppendFields(&b, sw.worksheet, from, to)
+	return b.Bytes()
+}
+
+// VerifC11Prolog is what NewStreamWriter writes before anything else.
+func VerifC11Prolog(sw *StreamWriter) []byte {
+	var b bytes.Buffer
+	b.WriteString(xml.Header + `<worksheet` + templateNamespaceIDMap)
+	bulkAppendFields(&b, sw.worksheet, 2, 3)
+	return b.Bytes()
+}
+
+// VerifC11PreData is what writeSheetData would write for the current
+// worksheet settings (sheet views, format properties, columns, and the
+// sheetData start tag), rendered on a scratch writer.
+func VerifC11PreData(sw *StreamWriter) []byte {
+	scratch := &StreamWriter{worksheet: sw.worksheet}
+	scratch.writeSheetData()
+	return scratch.rawData.buf.Bytes()
+}
+
+// VerifC11RichText exposes setRichText followed by the marshalling writeCell
+// applies to the runs.
+func VerifC11RichText(runs []RichTextRun) ([]byte, error) {
+	r, err := setRichText(runs)
+	if err != nil {
+		return nil, err
+	}
+	if len(r) == 0 {
+		return nil, nil
+	}
+	b, _ := xml.Marshal(r)
+	return b, nil
+}
+
+// VerifC11StyleCount is the number of cell formats SetColStyle validates against.
+func VerifC11StyleCount(f *File) int {
+	s, err := f.stylesReader()
+	if err != nil || s.CellXfs == nil {
+		return 0
+	}
+	return len(s.CellXfs.Xf)
+}
